@@ -20,6 +20,10 @@ def base_program(rng):
         ("macro", "guard", [("macro", "twice", [("lbl", "start")])]),
         ("label", "end"), ("op", "jumpdest", None),
     ]
+    if rng.random() < 0.5:      # the parameter also inside the argument of an expression macro, and twice in one invocation
+        body = prog[1][3]
+        body.insert(3, ("op", "push2", ("macro", "twice", [("var", "t")])))
+        body.insert(4, ("op", "push2", ("macro", "twice", [G.climb([("var", "t"), "+", ("num", 1)]), ("var", "t")])))
     if rng.random() < 0.5:      # definitions after their uses
         defs = [o for o in prog if o[0] in ("defe", "defi")]
         prog = [o for o in prog if o[0] not in ("defe", "defi")] + defs
